@@ -61,7 +61,7 @@ def check(pid, tier, seed):
     openf = {f["id"]: f for f in C.open_findings(pid)}
     for s, n in runs:
         fin, fimpl, fmodel = [os.path.join(d, x) for x in ("json_in.txt", "json_impl.txt", "json_model.txt")]
-        q = C.run([C.HARNESS, "jsonrt", "-seed", str(s), "-n", str(n), "-in", fin, "-impl", fimpl], cwd=d, timeout=3600)
+        q = C.run([C.HARNESS, "jsonrt", "-seed", str(s), "-n", str(n), "-in", fin, "-impl", fimpl], cwd=d, timeout=C.engine_timeout())
         if q.returncode != 0:
             R.violation({"property": pid, "kind": "harness jsonrt crashed (panic in the transform?)", "detail": (q.stdout or "")[-2000:]}, "crash")
             continue
